@@ -153,7 +153,6 @@ fn build_compare_op(
                     }
                     #[automatically_derived]
                     #[allow(clippy::double_parens)]
-                    #[allow(unused_parens)]
                     #allow_deprecated
                     impl #impl_g __AssertFieldsEq for #this_ty #wheres {
                         fn _f(__this: &Self) {
@@ -169,7 +168,6 @@ fn build_compare_op(
         #[automatically_derived]
         #allow_deprecated
         #[allow(clippy::double_parens)]
-        #[allow(unused_parens)]
         impl #impl_g #trait_ for #this_ty #wheres {
             #body
         }
